@@ -172,6 +172,34 @@ Fixpoint locks_ok (es : list event) (ks : list nat) (t : nat) (res : list (list 
   | _, _ => true
   end.
 
+(* nothing that could be serialised is lost on the way to the pipe: at a quiet end (every main
+   thread finished, every started feeder asleep on the notification semaphore of its _notempty
+   or never started with nothing accepted) the messages process p's feeder wrote are, in order,
+   exactly the picklable messages of p's puts that returned None *)
+Fixpoint accepted (sc : list qcall) (rs : list Z) : list Z :=
+  match sc, rs with
+  | (id, _, _, m) :: sc', v :: rs' =>
+    if (Nat.eqb id 0 || Nat.eqb id 3) && (v =? V_NONE) then m :: accepted sc' rs' else accepted sc' rs'
+  | _, _ => []
+  end.
+Definition sent_by (t : nat) (es : list event) : list Z :=
+  map (fun e => let '(_, _, _, r) := e in r)
+      (filter (fun e => let '(t', o, op, _) := e in Nat.eqb t' t && Nat.eqb o PIPE && (op =? 3)) es).
+Fixpoint delivered_ok (es : list event) (p : nat) (scs : list (list qcall)) (res : list (list Z)) (pend : list Z) : bool :=
+  match scs, res, pend with
+  | sc :: scs', rm :: _rf :: res', _pm :: pf :: pend' =>
+    ((pf =? Z.of_nat (9 + 2 * p)) || (pf =? -1) && match accepted sc rm with [] => true | _ => false end)
+    && list_eqb Z.eqb (sent_by (2 * p + 1) es) (filter picklable (accepted sc rm))
+    && delivered_ok es (S p) scs' res' pend'
+  | _, _, _ => true
+  end.
+Definition quiet_feeders (p0 : nat) (pend : list Z) : bool :=
+  (fix go (p : nat) (l : list Z) : bool :=
+     match l with
+     | _pm :: pf :: l' => ((pf =? Z.of_nat (9 + 2 * p)) || (pf =? -1)) && go (S p) l'
+     | _ => true
+     end) p0 pend.
+
 (* an item that is in the pipe is not kept from a get that is waiting for one: at a deadlock
    end (nothing can move any more) with a message in the pipe no main thread is inside get *)
 Fixpoint get_stuck_ok (scs : list (list qcall)) (res : list (list Z)) (fins : list bool) : bool :=
@@ -273,7 +301,10 @@ Definition qmonitors (kind maxsize : Z) (scripts : list (list qcall)) (o : qobse
   && taskdone_ok scripts es ks (0 :: unfinished_after scripts 0 es ks)
   && (negb (endk =? 1) || join_stuck_ok (last (unfinished_after scripts 0 es ks) 0) scripts res fins)
   && locks_ok es ks 0 res fins
-  && (negb (endk =? 1) || match pipe with [] => true | _ => get_stuck_ok scripts res fins end).
+  && (negb (endk =? 1) || match pipe with [] => true | _ => get_stuck_ok scripts res fins end)
+  && (if (kind <? 2) && negb (endk =? 2) && forallb (fun b => b) (evens fins) && quiet_feeders 0 pend
+         && negb (feeder_ended fins)
+      then delivered_ok es 0 scripts res pend else true).
 
 (* ------------------------------------------------------------------ correspondence *)
 Definition qmodel_obs (maxsize : Z) (scripts : list (list qcall)) (sched : list (nat * bool)) :=
@@ -286,19 +317,21 @@ Definition fins_eqb (impl model : list bool) : bool :=
   (* a dormant feeder is "not finished" on both sides; a feeder whose _feed has returned is finished *)
   list_eqb Bool.eqb impl model.
 
-(* 0 = identical; 2 = a property monitor fails on the implementation's trace, or the same
-   history gave different call results; 1 = other difference; 3 = model and implementation agree
-   and every other monitor passes, but a feeder thread has ended: the message it held and its
-   capacity token are lost and nothing this process puts afterwards is ever delivered *)
+(* 0 = identical; 3 = on the implementation's trace a feeder thread has ENDED although its queue
+   is in use (the message it held and its capacity token are lost and nothing its process puts
+   afterwards is ever delivered: the defect repaired by 36337df); 2 = another property monitor
+   fails on the implementation's trace, or the same history gave different call results;
+   1 = other difference *)
 Definition check_case (c : qcase) : Z :=
   let '(kind, maxsize, scripts, sched, o) := c in
   let '(es, ks, res, fins, vals, pp, bufs, pend, endk) := o in
   let '(mes, mres, mfins, mvals, mpipe, mbufs, ok) := qmodel_obs maxsize scripts sched in
   let same_ev := list_eqb event_eqb es mes && ok in
   let same_res := list_eqb (list_eqb Z.eqb) res mres in
-  if negb (qmonitors kind maxsize scripts o) then 2
+  if feeder_ended fins then 3
+  else if negb (qmonitors kind maxsize scripts o) then 2
   else if same_ev && negb same_res then 2
   else if same_ev && same_res && fins_eqb fins mfins && list_eqb Z.eqb vals mvals
           && list_eqb Z.eqb pp mpipe && list_eqb (list_eqb Z.eqb) bufs mbufs
-       then (if feeder_ended fins then 3 else 0)
+       then 0
   else 1.
